@@ -160,6 +160,9 @@ func one(w *bufio.Writer, seed uint64, n int, all bool, quota int, long bool, on
 		// (the announcements the dead process missed are lost: a late announcement of a block below
 		// the stored tip would send the restarted wallet through a reorganisation of its own)
 		for k := c0 + 1; k <= c1; k++ {
+			if ioFF && !all && k == c1 && c1-c0 >= 2 {
+				continue // (the long history, quick tier: the commit that finishes the rescan is left to the short ones)
+			}
 			plans = append(plans, plan{[]int{k}, 100000, true})
 		}
 		if c1-c0 >= 2 {
@@ -170,7 +173,7 @@ func one(w *bufio.Writer, seed uint64, n int, all bool, quota int, long bool, on
 			plans = append(plans, plan{[]int{kb, 1 + r.Intn(4)}, 100000, true})
 			// ... only a part of the outage happens while the wallet is down: the node is found
 			// SHORTER than the stored tip (all detaches, a few attaches), the rest arrives live
-			if info.Depth > 0 {
+			if info.Depth > 0 && (!ioFF || all) {
 				plans = append(plans, plan{[]int{c0 + 1 + r.Intn(c1-c0)}, info.Depth + r.Intn(3), r.Chance(50)})
 			}
 		}
